@@ -55,8 +55,8 @@ fn main() {
         "C17" => c17::check(tier, &mut rep),
         _ => std::process::exit(2),
     }));
-    if r.is_err() {
-        rep.violation(vcommon::report::Violation { signature: "panic".into(), case: serde_json::json!({"special": "uncaught"}), detail: "subject panicked outside a guarded case".into() });
+    if let Err(e) = r {
+        vcommon::sweep::report_outer_panic(&mut rep, "uncaught", e);
     }
     std::process::exit(rep.finish());
 }
